@@ -13,6 +13,7 @@ import os
 
 import vlib
 import progs
+from gen import stmts
 
 THEOREM_MODULES = ["Yarel.Props.C04", "Yarel.Props.OpcodeTable", "Yarel.Props.ModelLimits"]
 REQUIRED_THEOREMS = ["verify_sound", "checkAnnot_sound", "verify_unique_height", "verify_progress", "opcode_table_agrees"]
@@ -173,7 +174,9 @@ def correspondence(ctx, model_ok=True):
     limits = limit_programs()
     if not ctx.thorough:
         limits = [p for p in limits if ":constants:" not in p[0]]
-    allp = corpus + limits + [(n, s, m) for n, s, m, _ in gen] + scripts
+    # every statement form of the catalogue (every instruction family x the kinds of value it dispatches on), at module level, in a
+    # function and in a for loop: each executed instruction is compared with the verifier's annotation below
+    allp = corpus + limits + [stmts.once_program(stmts.forms_without_finally())] + stmts.loop_programs(2, stmts.forms_without_finally()) + [(n, s, m) for n, s, m, _ in gen] + scripts
     res, _ = progs.run_programs(ctx.runner, allp, {"bytecode": 1, "itrace": 200000, "gc": "default"}, steps_budget=5000000, tag="v")
     requests = []
     owners = []
